@@ -20,6 +20,7 @@ CHECKS = {
             dict(name="trap", test="TestC05Trap", checks=(200, 40000), shards=(2, 8), timeout=(240, 3000)),
             dict(name="victim", test="TestC05Victim", checks=(300, 60000), shards=(4, 14), timeout=(240, 3000)),
             dict(name="child", test="TestC05Child", kind="enum", shards=(2, 4), timeout=(240, 600)),
+            dict(name="delivery-windows", test="TestC05DeliveryWindows", checks=(400, 80000), shards=(4, 14), timeout=(240, 3000)),
         ]),
 
     "C06": dict(
